@@ -177,7 +177,7 @@ pub fn check_instantiate(pre: &World, post: &World, msg: &Value, out: &Outcome, 
     if out.is_ok() {
         let stored = post.item_raw("contract_info");
         let exp = instantiate_expected_cfg(msg);
-        if stored.as_ref() != Some(&exp) {
+        if !stored.as_ref().map_or(false, |s| crate::mon::json_covers(s, &exp)) {
             viol(viols, "C13", "instantiate-record", "stored configuration differs from the request", format!("expected {} stored {:?}", exp, stored));
         }
         let (name, version) = crate::migrate::package_identity();
